@@ -4,6 +4,7 @@ import (
 	"bytes"
 	"fmt"
 	"math/big"
+	"strings"
 	"time"
 
 	"cosmossdk.io/math"
@@ -331,6 +332,12 @@ func (c *c12) executeMessages(o *OracleEnv, admin string, log []string) {
 		{"inner signed by the admin", []sdk.Msg{add(admin, v1)}, false, nil},
 		{"inner bank send from the admin", []sdk.Msg{banktypes.NewMsgSend(sdk.MustAccAddressFromBech32(admin), o.Users[0].Addr, sdk.NewCoins(sdk.NewCoin("ufee", math.NewInt(1))))}, false, nil},
 		{"valid then foreign-signed", []sdk.Msg{add(l2.Authority, v1), add(o.Users[0].String(), v2)}, false, func(br *OracleEnv) (bool, string) { return !hasVal(br, v1), "first inner effect must not survive" }},
+		{"authority-signed, then bank send from a user", []sdk.Msg{add(l2.Authority, v1), banktypes.NewMsgSend(o.Users[0].Addr, sdk.MustAccAddressFromBech32(admin), sdk.NewCoins(sdk.NewCoin("ufee", math.NewInt(1))))}, false, func(br *OracleEnv) (bool, string) {
+			return !hasVal(br, v1), "the first inner effect must not survive"
+		}},
+		{"authority-signed, user bank send, authority-signed", []sdk.Msg{add(l2.Authority, v1), banktypes.NewMsgSend(o.Users[0].Addr, sdk.MustAccAddressFromBech32(admin), sdk.NewCoins(sdk.NewCoin("ufee", math.NewInt(1)))), add(l2.Authority, v2)}, false, nil},
+		{"authority-signed, then withdrawal of a user's tokens", []sdk.Msg{add(l2.Authority, v1), opchildtypes.NewMsgInitiateTokenWithdrawal(o.Users[0].String(), "l1recipient", sdk.NewCoin(o.L2Denom("uinit"), math.NewInt(1)))}, false, nil},
+		{"user bank send first, then authority-signed", []sdk.Msg{banktypes.NewMsgSend(o.Users[0].Addr, sdk.MustAccAddressFromBech32(admin), sdk.NewCoins(sdk.NewCoin("ufee", math.NewInt(1)))), add(l2.Authority, v1)}, false, nil},
 		{"inner bank send from the module account", []sdk.Msg{banktypes.NewMsgSend(modAcc, o.Users[0].Addr, sdk.NewCoins(sdk.NewCoin("ufee", math.NewInt(1))))}, true, nil},
 		{"nested execute-messages signed by admin inside", []sdk.Msg{func() sdk.Msg {
 			m, _ := opchildtypes.NewMsgExecuteMessages(admin, []sdk.Msg{add(l2.Authority, v1)})
@@ -347,8 +354,16 @@ func (c *c12) executeMessages(o *OracleEnv, admin string, log []string) {
 		if t.name == "inner bank send from the module account" {
 			br.L2.FundModule(opchildtypes.ModuleName, sdk.NewCoin("ufee", math.NewInt(10)))
 		}
+		if strings.Contains(t.name, "user") {
+			// the user can afford what the batch would do on their behalf
+			br.L2.Fund(o.Users[0].Addr, sdk.NewCoin("ufee", math.NewInt(10)), sdk.NewCoin(o.L2Denom("uinit"), math.NewInt(10)))
+		}
+		userBefore := br.L2.BK.GetAllBalances(br.L2.Ctx, o.Users[0].Addr).String()
 		res := br.L2.Deliver(msg)
 		run.Evaluations++
+		if userAfter := br.L2.BK.GetAllBalances(br.L2.Ctx, o.Users[0].Addr).String(); strings.Contains(t.name, "user") {
+			run.Check("C12.execute_messages_all_or_nothing", userAfter == userBefore, "c12.execute_messages_moved_user_funds."+t.name, append(append([]string(nil), log...), "MsgExecuteMessages by admin: "+t.name), "an admin batch moved a user's funds (%s -> %s): inner messages may only be signed by the module authority", userBefore, userAfter)
+		}
 		tr := append(append([]string(nil), log...), fmt.Sprintf("MsgExecuteMessages by admin: %s -> %s %s", t.name, res.Class, res.ErrString()))
 		run.Check("C12.execute_messages_all_or_nothing", (res.Class == sim.OK) == t.wantOK, "c12.execute_messages."+t.name, tr, "MsgExecuteMessages (%s): expected success=%v, got %s %s", t.name, t.wantOK, res.Class, res.ErrString())
 		if t.check != nil {
